@@ -34,12 +34,16 @@ import (
 // C18 — TLS client options. One case = one value of client.TLSClientOptions built from real material:
 //
 //	client certificates  1 fixtures/certs/myclient.crt (RSA)  2 fixtures/certs/myclient-ecc.crt (EC)  3 generated Ed25519
+//	                     4 generated EC leaf issued by intermediate 5, which is issued by intermediate 6 (issued by the client issuer root)
+//	certificate files    1 2 3 = that single certificate; 4 = a CHAIN file: leaf 4 + intermediate 5; 5 = leaf 4 + intermediates 5, 6;
+//	                     6 = intermediate 5 first, then leaf 4 (wrong order: the key does not match the first block)
 //	keys                 1 myclient.key (RSA, pairs with cert 1)  2 myclient-ecc.key (EC, pairs with cert 2)
 //	                     3 generated Ed25519 (pairs with cert 3; unsupported when loaded)  4 generated RSA (pairs with nothing)
 //	                     5 generated EC P-256 (pairs with nothing)  6 EC key on an unnamed curve (cannot be marshalled)
+//	                     7 generated EC P-256 (pairs with certificate 4, i.e. with the chain files 4 and 5)
 //	file slots           the ids above = a path to a PEM file with that material; 100 = a path that does not exist;
 //	                     101 = a readable file without any PEM block
-//	CA files             1 = generated CA 1 followed by fixtures myCA.crt (CA 2)   2 = fixtures/certs/myCA.crt alone
+//	CA files             1 = generated CA 1 followed by fixtures myCA.crt (CA 2)   2 = fixtures/certs/myCA.crt alone   3 = CA 6 alone
 //	CA ids               1 file CA (generated)  2 fixtures myCA  3 loaded CA  4 CA in the loaded pool  5 the process's system pool
 //	                     (SSL_CERT_FILE points at a generated CA, so that trusting the system pool is observable)
 //	                     6 a second generated CA (the other loaded CA, second member of the larger pool)
@@ -48,6 +52,12 @@ import (
 //	server names         arbitrary bytes; the enumerated universe c18Names holds plain names, names with a trailing dot / several
 //	                     dots / a bare dot, upper and mixed case, IP literals, a port, blanks, a wildcard, IDN forms, a NUL byte, a
 //	                     long label. Every pass-through field therefore has at least two distinct non-zero values.
+//
+// A HISTORY case (c18HistIn) is 2-4 such option values used one after the other in this one process with the SAME three file
+// paths (certificate, key, CA file of a directory private to the history): in a history step the file ids name the CONTENT the
+// harness puts behind the shared path before the call (100 = the file is removed, 101 = replaced by PEM-free bytes, 0 = option unset,
+// file left alone). Every call must answer what a fresh process would for the content of that moment; configurations returned by
+// earlier calls are projected again after the last call.
 //
 // The real TLSClientAuth is called on every case; the returned *tls.Config is projected; for the security-relevant rows
 // handshakes are made against in-process TLS servers whose certificates are signed by CA 1, 3, 4, 5, by an unknown CA, and
@@ -112,15 +122,42 @@ func c18PlainName(n Bs) bool { return n == "" || n == c18Dial || n == "other.tes
 type c18HS struct {
 	Server int    `json:"server"`
 	OK     bool   `json:"ok"`
-	Cert   int    `json:"client_cert"`
+	Chain  []int  `json:"client_chain,omitempty"` // every certificate the server received from the client, wire order
 	Err    string `json:"err,omitempty"`
 }
+
+// c18Cert: one element of tls.Config.Certificates: ids of all DER blocks it presents (leaf first) and the key id.
+type c18Cert struct {
+	Chain []int `json:"chain"`
+	Key   int   `json:"key"`
+}
+
+// c18HistIn: several calls in one process on the same file paths (see the comment above c18In).
+type c18HistIn struct {
+	Hist []c18In `json:"hist"`
+}
+
+// c18Late: the projection, after the last call of the history, of the configuration step Step returned, when it is no longer
+// what it was when the call returned.
+type c18Late struct {
+	Step int    `json:"step"`
+	Obs  c18Obs `json:"obs"`
+}
+
+type c18HistObs struct {
+	Steps []c18Obs  `json:"steps"`
+	Late  []c18Late `json:"late,omitempty"`
+}
+
+// c18HistPaths: the three shared paths of one history.
+type c18HistPaths struct{ cert, key, ca string }
 
 type c18Obs struct {
 	Panicked bool   `json:"panicked,omitempty"`
 	Panic    string `json:"panic,omitempty"`
 	// oracles: what the standard library says about the material of this case
 	LoadOK    bool  `json:"load_ok"`
+	FileChain []int `json:"file_chain,omitempty"` // the CERTIFICATE blocks of the certificate file, in file order
 	MarshalOK bool  `json:"marshal_ok"`
 	X509OK    bool  `json:"x509_ok"`
 	CAReadErr bool  `json:"ca_read_err,omitempty"`
@@ -133,7 +170,7 @@ type c18Obs struct {
 	ServerName  Bs       `json:"server_name,omitempty"`
 	RootsSystem bool     `json:"roots_system,omitempty"`
 	Roots       []int    `json:"roots,omitempty"`
-	Certs       [][2]int `json:"certs,omitempty"`
+	Certs       []c18Cert `json:"certs,omitempty"`
 	Callback    int      `json:"callback,omitempty"`
 	Tickets     bool     `json:"tickets_disabled,omitempty"`
 	Cache       int      `json:"cache,omitempty"`
@@ -151,8 +188,8 @@ type c18Server struct {
 }
 
 type c18SrvRes struct {
-	err  error
-	cert int
+	err   error
+	chain []int
 }
 
 type c18Mat struct {
@@ -169,6 +206,7 @@ type c18Mat struct {
 	cacheA    tls.ClientSessionCache
 	cacheB    tls.ClientSessionCache
 	loadCache map[[2]int]bool
+	histSeq   int
 	mu        sync.Mutex
 }
 
@@ -220,6 +258,17 @@ func c18NewCA(cn string) (*x509.Certificate, *ecdsa.PrivateKey) {
 		NotBefore: time.Now().Add(-time.Hour), NotAfter: time.Now().Add(240 * time.Hour),
 		IsCA: true, BasicConstraintsValid: true, KeyUsage: x509.KeyUsageCertSign | x509.KeyUsageDigitalSignature}
 	der := c18Must(x509.CreateCertificate(crand.Reader, tpl, tpl, &k.PublicKey, k))
+	return c18Must(x509.ParseCertificate(der)), k
+}
+
+// c18NewInter: an intermediate CA certificate issued by parent.
+func c18NewInter(cn string, parent *x509.Certificate, parentKey crypto.Signer) (*x509.Certificate, *ecdsa.PrivateKey) {
+	k := c18Must(ecdsa.GenerateKey(elliptic.P256(), crand.Reader))
+	c18Serial++
+	tpl := &x509.Certificate{SerialNumber: big.NewInt(c18Serial), Subject: pkix.Name{CommonName: cn},
+		NotBefore: time.Now().Add(-time.Hour), NotAfter: time.Now().Add(240 * time.Hour),
+		IsCA: true, BasicConstraintsValid: true, KeyUsage: x509.KeyUsageCertSign | x509.KeyUsageDigitalSignature}
+	der := c18Must(x509.CreateCertificate(crand.Reader, tpl, parent, &k.PublicKey, parentKey))
 	return c18Must(x509.ParseCertificate(der)), k
 }
 
@@ -290,6 +339,18 @@ func c18Material() *c18Mat {
 		odd := &elliptic.CurveParams{P: p256.P, N: p256.N, B: p256.B, Gx: p256.Gx, Gy: p256.Gy, BitSize: p256.BitSize, Name: "c18-unnamed"}
 		k5 := m.keys[5].(*ecdsa.PrivateKey)
 		m.keys[6] = &ecdsa.PrivateKey{PublicKey: ecdsa.PublicKey{Curve: odd, X: k5.X, Y: k5.Y}, D: k5.D}
+		// a leaf below two intermediates, and certificate files holding the chain
+		inter6, inter6Key := c18NewInter("c18 client intermediate B", selfCA, selfKey)
+		inter5, inter5Key := c18NewInter("c18 client intermediate A", inter6, inter6Key)
+		k7 := c18Must(ecdsa.GenerateKey(elliptic.P256(), crand.Reader))
+		m.keys[7] = k7
+		m.certs[4] = c18NewLeaf("c18 chained client", inter5, inter5Key, &k7.PublicKey, nil)
+		m.certs[5], m.certs[6] = inter5, inter6
+		pemOf := func(id int) *pem.Block { return &pem.Block{Type: "CERTIFICATE", Bytes: m.certs[id].Raw} }
+		m.certPath[4] = c18Write(m.dir, "chain4.crt", pemOf(4), pemOf(5))
+		m.certPath[5] = c18Write(m.dir, "chain5.crt", pemOf(4), pemOf(5), pemOf(6))
+		m.certPath[6] = c18Write(m.dir, "chain6-wrong-order.crt", pemOf(5), pemOf(4))
+		m.keyPath[7] = c18Write(m.dir, "key7.key", &pem.Block{Type: "EC PRIVATE KEY", Bytes: c18Must(x509.MarshalECPrivateKey(k7))})
 		m.certPath[100] = filepath.Join(m.dir, "does-not-exist.crt")
 		m.keyPath[100] = filepath.Join(m.dir, "does-not-exist.key")
 		m.caPath[100] = filepath.Join(m.dir, "does-not-exist-ca.crt")
@@ -313,6 +374,7 @@ func c18Material() *c18Mat {
 		}
 		m.caPath[1] = c18Write(m.dir, "ca1.pem", &pem.Block{Type: "CERTIFICATE", Bytes: m.cas[1].Raw}, &pem.Block{Type: "CERTIFICATE", Bytes: m.cas[2].Raw})
 		m.caPath[2] = filepath.Join(fx, "myCA.crt")
+		m.caPath[3] = c18Write(m.dir, "ca3.pem", &pem.Block{Type: "CERTIFICATE", Bytes: m.cas[6].Raw})
 		// the system pool of this process
 		sys := c18Write(m.dir, "system-roots.pem", &pem.Block{Type: "CERTIFICATE", Bytes: m.cas[5].Raw})
 		emptyDir := filepath.Join(m.dir, "empty-cert-dir")
@@ -339,8 +401,8 @@ func c18Material() *c18Mat {
 					err = sc.Handshake()
 					res := c18SrvRes{err: err}
 					if err == nil {
-						if pcs := sc.ConnectionState().PeerCertificates; len(pcs) > 0 {
-							res.cert = m.certID(pcs[0].Raw)
+						for _, pc := range sc.ConnectionState().PeerCertificates {
+							res.chain = append(res.chain, m.certID(pc.Raw))
 						}
 					}
 					s.resCh <- res
@@ -387,7 +449,7 @@ func (m *c18Mat) keyID(k crypto.PrivateKey) int {
 		return 99
 	}
 	type eq interface{ Equal(crypto.PublicKey) bool }
-	for _, id := range []int{1, 2, 3, 4, 5} { // 6 shares its point with 5 but lives on another curve object
+	for _, id := range []int{1, 2, 3, 4, 5, 7} { // 6 shares its point with 5 but lives on another curve object
 		if p, ok := m.keys[id].Public().(eq); ok && p.Equal(s.Public()) {
 			return id
 		}
@@ -405,11 +467,24 @@ func (m *c18Mat) loadedKey(id int) crypto.PrivateKey {
 	return m.keys[id]
 }
 
-func (m *c18Mat) options(in c18In) client.TLSClientOptions {
-	var o client.TLSClientOptions
+func (m *c18Mat) options(in c18In, hp *c18HistPaths) (o client.TLSClientOptions) {
 	if in.CertFile != 0 {
 		o.Certificate = m.certPath[in.CertFile]
 	}
+	defer func() { // a history step: the shared paths, whatever content they hold now
+		if hp == nil {
+			return
+		}
+		if in.CertFile != 0 {
+			o.Certificate = hp.cert
+		}
+		if in.KeyFile != 0 {
+			o.Key = hp.key
+		}
+		if in.CAFile != 0 {
+			o.CA = hp.ca
+		}
+	}()
 	if in.LoadedCert != 0 {
 		o.LoadedCertificate = m.certs[in.LoadedCert]
 	}
@@ -476,8 +551,8 @@ func c18Valid(in c18In) bool {
 		}
 		return false
 	}
-	return ok(in.CertFile, 0, 1, 2, 3, 100, 101) && ok(in.LoadedCert, 0, 1, 2, 3) && ok(in.KeyFile, 0, 1, 2, 3, 4, 100, 101) &&
-		ok(in.LoadedKey, 0, 1, 2, 3, 4, 5, 6) && ok(in.CAFile, 0, 1, 2, 100, 101) &&
+	return ok(in.CertFile, 0, 1, 2, 3, 4, 5, 6, 100, 101) && ok(in.LoadedCert, 0, 1, 2, 3, 4) && ok(in.KeyFile, 0, 1, 2, 3, 4, 7, 100, 101) &&
+		ok(in.LoadedKey, 0, 1, 2, 3, 4, 5, 6, 7) && ok(in.CAFile, 0, 1, 2, 3, 100, 101) &&
 		ok(int(in.LoadedCA), 0, 1, 2) && ok(int(in.Pool), 0, 1, 2, 3) && ok(int(in.Callback), 0, 1, 2) && ok(int(in.Cache), 0, 1, 2)
 }
 
@@ -496,10 +571,32 @@ func (c18) Rule() string {
 		"pool {none, {4}, empty, {4,6}} x server name x insecure. thorough adds Ed25519/garbage certificate and key files, " +
 		"an unmarshalable EC key, a mismatched EC key, a single-certificate and a PEM-free CA file and a non-matching server name (callback/session options all off or all on), and larger products (2) and (3). " +
 		"Random cases draw from the thorough universe; server names are universe members or random bytes with up to three edits (dots, case, blanks, stray bytes). Handshakes against 8 in-process servers (signed by each CA, by an unknown CA, TLS<=1.1 only, TLS<=1.2) for the rows with " +
-		"default callback/session options, a plain server name and either a representative identity or no verification options. Non-trivial: at least one option set."
+		"default callback/session options, a plain server name and either a representative identity or no verification options; the server records EVERY certificate the client sent. " +
+		"(4) certificate files holding a chain: leaf + 1 and leaf + 2 intermediates with the matching / a mismatched / no key, intermediate-first order, next to a loaded pair, and the chain's leaf loaded alone; the full list of DER blocks of Certificates[0] is compared with the blocks of the file. " +
+		"HISTORIES (2-4 calls in one process on the same three file paths, the harness changing what sits behind the paths between the calls): (A) CA file rotated in place / replaced by PEM-free bytes / removed / restored, every ordered pair of 5 contents and every triple of 4, " +
+		"(B) certificate + key files: every ordered pair a,b and triple a,b,a of 8 contents (RSA pair, EC pair, chain +1, chain +2, mismatched, certificate removed, key removed, PEM-free certificate), (C) the root option consulted switches between the calls, repeated content, everything at once; " +
+		"one random case in four is a random history. Every call is compared with the single-call model on the content of its moment, and configurations retained from earlier calls are projected again (and used for handshakes) after the last call. Non-trivial: at least one option set."
 }
 
 func (c18) Decode(raw json.RawMessage) (any, error) {
+	var probe struct {
+		Hist []json.RawMessage `json:"hist"`
+	}
+	if json.Unmarshal(raw, &probe) == nil && probe.Hist != nil {
+		var h c18HistIn
+		if err := json.Unmarshal(raw, &h); err != nil {
+			return h, err
+		}
+		for _, st := range h.Hist {
+			if !c18Valid(st) {
+				return h, fmt.Errorf("c18: material id out of range: %s", raw)
+			}
+		}
+		if len(h.Hist) == 0 {
+			return h, fmt.Errorf("c18: empty history")
+		}
+		return h, nil
+	}
 	var in c18In
 	if err := json.Unmarshal(raw, &in); err != nil {
 		return in, err
@@ -596,15 +693,143 @@ func (c18) Enumerate(tier string) []any {
 	// 3. the root options with more than one value each: either loaded CA, an empty / one-member / two-member pool
 	out = c18Product(c18Dims{caFiles: []int{0, 1, 100}, loadedCAs: []c18Tok{0, 1, 2}, pools: []c18Tok{0, 1, 2, 3}, names: []string{"", c18Dial},
 		insecure: bools, pass: []c18Pass{{0, false, 0}, {2, true, 2}}}, []c18ID{{0, 0, 0, 0}, {0, 1, 0, 1}}, out, seen)
+	// 4. certificate files holding a chain (leaf + 1, leaf + 2 intermediates, wrong order), the leaf of the chain loaded alone
+	out = c18Product(c18Dims{caFiles: []int{0, 1}, loadedCAs: []c18Tok{0, 1}, pools: []c18Tok{0}, names: []string{"", c18Dial}, insecure: bools,
+		pass: []c18Pass{{0, false, 0}, {2, true, 2}}},
+		[]c18ID{{4, 0, 7, 0}, {5, 0, 7, 0}, {6, 0, 7, 0}, {4, 0, 1, 0}, {4, 0, 0, 0}, {5, 1, 7, 1}, {0, 4, 0, 7}, {0, 4, 0, 2}, {1, 0, 7, 0}}, out, seen)
+	out = append(out, c18EnumHist(tier)...)
 	if tier == "thorough" {
 		out = c18Product(c18Dims{certFiles: []int{0, 1, 2, 3, 100, 101}, loadedCerts: []int{0, 1, 2, 3}, keyFiles: []int{0, 1, 2, 3, 4, 100, 101},
 			loadedKeys: []int{0, 1, 2, 3, 4, 5, 6}, caFiles: []int{0, 1, 2, 100, 101}, loadedCAs: []c18Tok{0, 1}, pools: []c18Tok{0, 1},
 			names: []string{"", c18Dial, "other.test"}, insecure: bools, pass: []c18Pass{{0, false, 0}, {1, true, 1}}}, nil, out, seen)
+		// the chain files in a lattice of their own
+		out = c18Product(c18Dims{certFiles: []int{4, 5, 6}, loadedCerts: []int{0, 1, 4}, keyFiles: []int{0, 1, 7, 100}, loadedKeys: []int{0, 1, 7},
+			caFiles: []int{0, 1, 3, 100}, loadedCAs: []c18Tok{0, 1}, pools: []c18Tok{0, 1}, names: []string{"", c18Dial, "other.test"}, insecure: bools,
+			pass: []c18Pass{{0, false, 0}, {1, true, 1}}}, nil, out, seen)
 		out = c18Product(c18Dims{caFiles: []int{0, 1, 2, 100, 101}, loadedCAs: []c18Tok{0, 1, 2}, pools: []c18Tok{0, 1, 2, 3},
 			names: []string{"", c18Dial, c18Dial + ".", "other.test"}, insecure: bools, pass: []c18Pass{{0, false, 0}, {1, false, 2}, {2, true, 1}}},
 			[]c18ID{{0, 0, 0, 0}, {1, 0, 1, 0}, {0, 2, 0, 2}}, out, seen)
 	}
 	return out
+}
+
+// c18EnumHist: the enumerated histories. Within a history the calls differ in what sits behind the shared paths (and, in
+// group C, in which root option is consulted); everything else is constant.
+func c18EnumHist(tier string) []any {
+	var out []any
+	add := func(steps ...c18In) { out = append(out, c18HistIn{Hist: append([]c18In(nil), steps...)}) }
+	// A. the CA file: rotated in place, replaced by PEM-free bytes, removed, restored
+	type ctx struct {
+		id   c18ID
+		pool c18Tok
+		name string
+	}
+	ctxs := []ctx{{c18ID{0, 0, 0, 0}, 0, ""}, {c18ID{1, 0, 1, 0}, 1, c18Dial}}
+	if tier == "thorough" {
+		ctxs = append(ctxs, ctx{c18ID{0, 0, 0, 0}, 1, c18Dial}, ctx{c18ID{0, 2, 0, 2}, 0, ""}, ctx{c18ID{5, 0, 7, 0}, 3, ""})
+	}
+	caStep := func(c ctx, ca int) c18In {
+		return c18In{CertFile: c.id[0], LoadedCert: c.id[1], KeyFile: c.id[2], LoadedKey: c.id[3], CAFile: ca, Pool: c.pool, ServerName: Bs(c.name)}
+	}
+	cas2 := []int{1, 2, 3, 100, 101}
+	cas3 := []int{1, 3, 100, 101}
+	for _, c := range ctxs {
+		for _, a := range cas2 {
+			for _, b := range cas2 {
+				if a != b {
+					add(caStep(c, a), caStep(c, b))
+				}
+			}
+		}
+		for _, a := range cas3 {
+			for _, b := range cas3 {
+				for _, d := range cas3 {
+					if a != b && b != d {
+						add(caStep(c, a), caStep(c, b), caStep(c, d))
+					}
+				}
+			}
+		}
+	}
+	// B. the certificate and key files: another pair, a chain longer or shorter, a pair that no longer matches, a file removed
+	// or replaced by PEM-free bytes, and back
+	pairs := [][2]int{{1, 1}, {2, 2}, {4, 7}, {5, 7}, {1, 2}, {100, 1}, {1, 100}, {101, 1}}
+	caCtx := []int{0, 1}
+	if tier == "thorough" {
+		pairs = append(pairs, [2]int{3, 3}, [2]int{6, 7}, [2]int{1, 101}, [2]int{2, 7})
+		caCtx = []int{0, 1, 100}
+	}
+	idStep := func(p [2]int, ca int) c18In { return c18In{CertFile: p[0], KeyFile: p[1], CAFile: ca} }
+	for _, ca := range caCtx {
+		for _, a := range pairs {
+			for _, b := range pairs {
+				if a != b {
+					add(idStep(a, ca), idStep(b, ca))
+					add(idStep(a, ca), idStep(b, ca), idStep(a, ca))
+				}
+			}
+		}
+	}
+	// C. the option consulted changes between the calls while the files change underneath; unchanged content; everything at once
+	for _, a := range []int{1, 3} {
+		b := 4 - a
+		add(c18In{CAFile: a}, c18In{CAFile: b, LoadedCA: 1}, c18In{CAFile: b})
+		add(c18In{CAFile: a}, c18In{Pool: 1}, c18In{CAFile: b})
+		add(c18In{CAFile: a}, c18In{CAFile: a}, c18In{CAFile: b}, c18In{CAFile: b})
+		add(c18In{CAFile: a, Pool: 1}, c18In{CAFile: b, Pool: 3}, c18In{CAFile: 100, Pool: 1})
+		add(c18In{CAFile: a, Insecure: true}, c18In{CAFile: b, Insecure: true}, c18In{CAFile: 101, Insecure: true})
+		add(c18In{CertFile: 1, KeyFile: 1, CAFile: a}, c18In{LoadedCert: 2, LoadedKey: 2, CAFile: b}, c18In{CertFile: 4, KeyFile: 7, CAFile: a},
+			c18In{CertFile: 1, KeyFile: 1, CAFile: b})
+		add(c18In{CertFile: 5, KeyFile: 7, CAFile: a, ServerName: c18Dial}, c18In{CertFile: 2, KeyFile: 2, CAFile: b, ServerName: c18Dial},
+			c18In{CertFile: 100, KeyFile: 100, CAFile: 100, ServerName: c18Dial}, c18In{CertFile: 4, KeyFile: 7, CAFile: a, ServerName: c18Dial})
+	}
+	return out
+}
+
+// c18GenHist: a random history: a first call with file options, then 1-3 further calls each changing one or two things
+// (mostly what sits behind a path).
+func c18GenHist(r *rand.Rand) c18HistIn {
+	pick := func(xs ...int) int { return xs[r.Intn(len(xs))] }
+	st := c18In{CAFile: pick(0, 1, 1, 2, 3, 3, 100, 101), Pool: c18Tok(pick(0, 0, 1, 3)), Insecure: r.Intn(4) == 0}
+	switch r.Intn(4) {
+	case 0:
+	case 1:
+		st.LoadedCert = pick(1, 2, 4)
+		st.LoadedKey = map[int]int{1: 1, 2: 2, 4: 7}[st.LoadedCert]
+	default:
+		p := [][2]int{{1, 1}, {2, 2}, {4, 7}, {5, 7}, {3, 3}}[r.Intn(5)]
+		st.CertFile, st.KeyFile = p[0], p[1]
+	}
+	if r.Intn(3) == 0 {
+		st.ServerName = Bs(c18Pick2(r, c18Dial, "other.test"))
+	}
+	h := c18HistIn{Hist: []c18In{st}}
+	for n := 1 + r.Intn(3); n > 0; n-- {
+		for k := 1 + r.Intn(2); k > 0; k-- {
+			switch r.Intn(8) {
+			case 0, 1, 2:
+				st.CAFile = pick(1, 2, 3, 100, 101)
+			case 3, 4:
+				p := [][2]int{{1, 1}, {2, 2}, {4, 7}, {5, 7}, {6, 7}, {1, 2}, {100, 1}, {1, 100}, {101, 1}, {4, 101}}[r.Intn(10)]
+				st.CertFile, st.KeyFile = p[0], p[1]
+			case 5:
+				st.LoadedCA = c18Tok(pick(0, 1, 2))
+			case 6:
+				st.Pool = c18Tok(pick(0, 1, 2, 3))
+			default:
+				st.CertFile, st.KeyFile = 0, 0
+			}
+		}
+		h.Hist = append(h.Hist, st)
+	}
+	return h
+}
+
+func c18Pick2(r *rand.Rand, a, b string) string {
+	if r.Intn(2) == 0 {
+		return a
+	}
+	return b
 }
 
 // c18GenName: a server name for the random stream: a member of the universe or random bytes, then up to three edits of the
@@ -656,14 +881,20 @@ func c18GenName(r *rand.Rand) Bs {
 
 func (c18) Gen(r *rand.Rand, tier string, i int) any {
 	pick := func(xs ...int) int { return xs[r.Intn(len(xs))] }
-	in := c18In{CertFile: pick(0, 0, 1, 2, 3, 100, 101), LoadedCert: pick(0, 0, 1, 2, 3), KeyFile: pick(0, 0, 1, 2, 3, 4, 100, 101),
-		LoadedKey: pick(0, 0, 1, 2, 3, 4, 5, 6), CAFile: pick(0, 0, 1, 2, 100, 101), LoadedCA: c18Tok(pick(0, 0, 1, 2)), Pool: c18Tok(pick(0, 0, 1, 2, 3)),
+	if i%4 == 3 {
+		return c18GenHist(r)
+	}
+	in := c18In{CertFile: pick(0, 0, 1, 2, 3, 4, 5, 6, 100, 101), LoadedCert: pick(0, 0, 1, 2, 3, 4), KeyFile: pick(0, 0, 1, 2, 3, 4, 7, 7, 100, 101),
+		LoadedKey: pick(0, 0, 1, 2, 3, 4, 5, 6, 7), CAFile: pick(0, 0, 1, 2, 3, 100, 101), LoadedCA: c18Tok(pick(0, 0, 1, 2)), Pool: c18Tok(pick(0, 0, 1, 2, 3)),
 		Insecure: r.Intn(2) == 0, Callback: c18Tok(pick(0, 1, 2)), Tickets: r.Intn(2) == 0, Cache: c18Tok(pick(0, 1, 2))}
 	if i%2 == 1 { // every other random case yields a configuration rather than (mostly) an identity error
-		in.CertFile, in.KeyFile, in.LoadedCert, in.LoadedKey = 0, 0, pick(0, 1, 2), 0
-		in.LoadedKey = in.LoadedCert
+		in.CertFile, in.KeyFile, in.LoadedCert, in.LoadedKey = 0, 0, pick(0, 1, 2, 4), 0
+		in.LoadedKey = map[int]int{0: 0, 1: 1, 2: 2, 4: 7}[in.LoadedCert]
 		if in.CAFile >= 100 {
-			in.CAFile = pick(0, 1, 2)
+			in.CAFile = pick(0, 1, 2, 3)
+		}
+		if r.Intn(3) == 0 { // a certificate file holding a chain
+			in.LoadedCert, in.LoadedKey, in.CertFile, in.KeyFile = 0, 0, pick(4, 5), 7
 		}
 	}
 	switch r.Intn(5) {
@@ -683,7 +914,7 @@ func c18WantHS(in c18In) bool {
 	}
 	id := [4]int{in.CertFile, in.LoadedCert, in.KeyFile, in.LoadedKey}
 	switch id {
-	case [4]int{0, 0, 0, 0}, [4]int{1, 0, 1, 0}, [4]int{0, 1, 0, 1}, [4]int{0, 2, 0, 2}, [4]int{0, 0, 1, 0}:
+	case [4]int{0, 0, 0, 0}, [4]int{1, 0, 1, 0}, [4]int{0, 1, 0, 1}, [4]int{0, 2, 0, 2}, [4]int{0, 0, 1, 0}, [4]int{4, 0, 7, 0}, [4]int{5, 0, 7, 0}, [4]int{0, 4, 0, 7}:
 		return true
 	}
 	return in.CAFile == 0 && in.LoadedCA == 0 && in.Pool == 0 && in.ServerName == "" && in.Insecure
@@ -721,24 +952,187 @@ func (m *c18Mat) handshake(cfg *tls.Config, s *c18Server) c18HS {
 		hs.Err = "server: " + res.err.Error()
 		return hs
 	}
-	hs.OK, hs.Cert = true, res.cert
+	hs.OK, hs.Chain = true, res.chain
 	return hs
 }
 
 func (c18) Run(inAny any) any {
-	in := inAny.(c18In)
 	m := c18Material()
+	if h, ok := inAny.(c18HistIn); ok {
+		return m.runHist(h)
+	}
+	in := inAny.(c18In)
+	obs, cfg := m.runStep(in, nil)
+	if cfg != nil && c18WantHS(in) {
+		m.handshakes(cfg, &obs)
+	}
+	return obs
+}
+
+// c18Place: put the content of the file src behind dst (rewritten in place), or remove dst when src does not exist.
+func c18Place(dst, src string) {
+	data, err := os.ReadFile(src)
+	if err != nil {
+		if err := os.Remove(dst); err != nil && !os.IsNotExist(err) {
+			panic(err)
+		}
+		return
+	}
+	if err := os.WriteFile(dst, data, 0o600); err != nil {
+		panic(err)
+	}
+}
+
+// runHist: the calls of a history, one after the other, on three paths private to this history. Handshakes and the second
+// projection of every returned configuration are made after the last call.
+func (m *c18Mat) runHist(h c18HistIn) c18HistObs {
+	m.histSeq++
+	dir := filepath.Join(m.dir, fmt.Sprintf("hist-%06d", m.histSeq))
+	if err := os.Mkdir(dir, 0o700); err != nil {
+		panic(err)
+	}
+	defer os.RemoveAll(dir)
+	hp := &c18HistPaths{cert: filepath.Join(dir, "client.crt"), key: filepath.Join(dir, "client.key"), ca: filepath.Join(dir, "ca.pem")}
+	var out c18HistObs
+	cfgs := make([]*tls.Config, len(h.Hist))
+	for i, st := range h.Hist {
+		if st.CertFile != 0 {
+			c18Place(hp.cert, m.certPath[st.CertFile])
+		}
+		if st.KeyFile != 0 {
+			c18Place(hp.key, m.keyPath[st.KeyFile])
+		}
+		if st.CAFile != 0 {
+			c18Place(hp.ca, m.caPath[st.CAFile])
+		}
+		obs, cfg := m.runStep(st, hp)
+		out.Steps = append(out.Steps, obs)
+		cfgs[i] = cfg
+	}
+	for i, cfg := range cfgs {
+		if cfg == nil {
+			continue
+		}
+		late := out.Steps[i]
+		late.clearProjection()
+		p, msg := recoverTo(func() { m.project(cfg, &late) })
+		if p {
+			late.Panicked, late.Panic = true, msg
+			late.RestZero = false
+		}
+		if !reflect.DeepEqual(late, out.Steps[i]) {
+			out.Late = append(out.Late, c18Late{Step: i, Obs: late})
+		}
+		if c18WantHS(h.Hist[i]) {
+			m.handshakes(cfg, &out.Steps[i])
+		}
+	}
+	return out
+}
+
+func (m *c18Mat) handshakes(cfg *tls.Config, obs *c18Obs) {
+	p, msg := recoverTo(func() {
+		for _, s := range m.servers {
+			obs.HS = append(obs.HS, m.handshake(cfg, s))
+		}
+	})
+	if p {
+		obs.Panicked, obs.Panic = true, msg
+		obs.RestZero = false
+	}
+}
+
+func (o *c18Obs) clearProjection() {
+	o.MinVersion, o.Insecure, o.ServerName, o.RootsSystem, o.Roots, o.Certs = 0, false, "", false, nil, nil
+	o.Callback, o.Tickets, o.Cache, o.RestZero = 0, false, 0, false
+}
+
+// project: the security-relevant content of a configuration.
+func (m *c18Mat) project(cfg *tls.Config, obs *c18Obs) {
+	obs.MinVersion = int(cfg.MinVersion)
+	obs.Insecure = cfg.InsecureSkipVerify
+	obs.ServerName = Bs(cfg.ServerName)
+	if cfg.RootCAs == nil {
+		obs.RootsSystem = true
+	} else {
+		seen := map[int]bool{}
+		for _, subj := range cfg.RootCAs.Subjects() { //nolint:staticcheck // the pool never comes from SystemCertPool here
+			id, ok := m.caBySubj[string(subj)]
+			if !ok {
+				id = 99
+			}
+			if !seen[id] {
+				seen[id] = true
+				obs.Roots = append(obs.Roots, id)
+			}
+		}
+		sort.Ints(obs.Roots)
+	}
+	for _, c := range cfg.Certificates {
+		cc := c18Cert{Chain: []int{}, Key: m.keyID(c.PrivateKey)}
+		for _, der := range c.Certificate {
+			cc.Chain = append(cc.Chain, m.certID(der))
+		}
+		if c.Leaf != nil && (len(c.Certificate) == 0 || !bytes.Equal(c.Leaf.Raw, c.Certificate[0])) {
+			cc.Chain = append(cc.Chain, 97) // a parsed leaf that is not the first block presented
+		}
+		obs.Certs = append(obs.Certs, cc)
+	}
+	if cfg.VerifyPeerCertificate != nil {
+		obs.Callback = 9
+		switch reflect.ValueOf(cfg.VerifyPeerCertificate).Pointer() {
+		case reflect.ValueOf(m.cbA).Pointer():
+			obs.Callback = 1
+		case reflect.ValueOf(m.cbB).Pointer():
+			obs.Callback = 2
+		}
+	}
+	obs.Tickets = cfg.SessionTicketsDisabled
+	if cfg.ClientSessionCache != nil {
+		obs.Cache = 9
+		switch cfg.ClientSessionCache {
+		case m.cacheA:
+			obs.Cache = 1
+		case m.cacheB:
+			obs.Cache = 2
+		}
+	}
+	obs.RestZero = cfg.MaxVersion == 0 && cfg.CipherSuites == nil && cfg.VerifyConnection == nil && cfg.GetClientCertificate == nil &&
+		cfg.GetCertificate == nil && cfg.GetConfigForClient == nil && cfg.Rand == nil && cfg.Time == nil && cfg.KeyLogWriter == nil &&
+		cfg.CurvePreferences == nil && cfg.Renegotiation == tls.RenegotiateNever
+}
+
+// runStep: one call of the real TLSClientAuth. hp == nil: the fixed files of the material table; hp != nil: a history step,
+// the file options name the shared paths. The oracles are asked about exactly the paths handed to TLSClientAuth, now.
+func (m *c18Mat) runStep(in c18In, hp *c18HistPaths) (c18Obs, *tls.Config) {
 	obs := c18Obs{MarshalOK: true}
+	opts := m.options(in, hp)
 	// oracles, asked of the standard library directly
 	if in.CertFile != 0 && in.KeyFile != 0 {
 		key := [2]int{in.CertFile, in.KeyFile}
 		v, ok := m.loadCache[key]
-		if !ok {
-			_, err := tls.LoadX509KeyPair(m.certPath[in.CertFile], m.keyPath[in.KeyFile])
+		if !ok || hp != nil {
+			_, err := tls.LoadX509KeyPair(opts.Certificate, opts.Key)
 			v = err == nil
-			m.loadCache[key] = v
+			if hp == nil {
+				m.loadCache[key] = v
+			}
 		}
 		obs.LoadOK = v
+	}
+	if in.CertFile != 0 {
+		if data, err := os.ReadFile(opts.Certificate); err == nil {
+			for {
+				var b *pem.Block
+				b, data = pem.Decode(data)
+				if b == nil {
+					break
+				}
+				if b.Type == "CERTIFICATE" {
+					obs.FileChain = append(obs.FileChain, m.certID(b.Bytes))
+				}
+			}
+		}
 	}
 	if k, ok := m.loadedKey(in.LoadedKey).(*ecdsa.PrivateKey); ok {
 		_, err := x509.MarshalECPrivateKey(k)
@@ -751,7 +1145,7 @@ func (c18) Run(inAny any) any {
 		}
 	}
 	if in.CAFile != 0 {
-		data, err := os.ReadFile(m.caPath[in.CAFile])
+		data, err := os.ReadFile(opts.CA)
 		if err != nil {
 			obs.CAReadErr = true
 		} else {
@@ -774,11 +1168,12 @@ func (c18) Run(inAny any) any {
 
 	var cfg *tls.Config
 	var err error
-	opts := m.options(in)
 	obs.Panicked, obs.Panic = recoverTo(func() { cfg, err = client.TLSClientAuth(opts) })
 	switch {
 	case obs.Panicked:
+		cfg = nil
 	case err != nil:
+		cfg = nil
 		obs.ErrText = err.Error()
 		switch {
 		case strings.HasPrefix(obs.ErrText, "tls client cert:"):
@@ -793,63 +1188,9 @@ func (c18) Run(inAny any) any {
 	case cfg == nil:
 		obs.Err, obs.ErrText = "other", "nil config without error"
 	default:
-		obs.MinVersion = int(cfg.MinVersion)
-		obs.Insecure = cfg.InsecureSkipVerify
-		obs.ServerName = Bs(cfg.ServerName)
-		if cfg.RootCAs == nil {
-			obs.RootsSystem = true
-		} else {
-			seen := map[int]bool{}
-			for _, subj := range cfg.RootCAs.Subjects() { //nolint:staticcheck // the pool never comes from SystemCertPool here
-				id, ok := m.caBySubj[string(subj)]
-				if !ok {
-					id = 99
-				}
-				if !seen[id] {
-					seen[id] = true
-					obs.Roots = append(obs.Roots, id)
-				}
-			}
-			sort.Ints(obs.Roots)
-		}
-		for _, c := range cfg.Certificates {
-			cid := 98
-			if len(c.Certificate) == 1 {
-				cid = m.certID(c.Certificate[0])
-			}
-			obs.Certs = append(obs.Certs, [2]int{cid, m.keyID(c.PrivateKey)})
-		}
-		if cfg.VerifyPeerCertificate != nil {
-			obs.Callback = 9
-			switch reflect.ValueOf(cfg.VerifyPeerCertificate).Pointer() {
-			case reflect.ValueOf(m.cbA).Pointer():
-				obs.Callback = 1
-			case reflect.ValueOf(m.cbB).Pointer():
-				obs.Callback = 2
-			}
-		}
-		obs.Tickets = cfg.SessionTicketsDisabled
-		if cfg.ClientSessionCache != nil {
-			obs.Cache = 9
-			switch cfg.ClientSessionCache {
-			case m.cacheA:
-				obs.Cache = 1
-			case m.cacheB:
-				obs.Cache = 2
-			}
-		}
-		obs.RestZero = cfg.MaxVersion == 0 && cfg.CipherSuites == nil && cfg.VerifyConnection == nil && cfg.GetClientCertificate == nil &&
-			cfg.GetCertificate == nil && cfg.GetConfigForClient == nil && cfg.Rand == nil && cfg.Time == nil && cfg.KeyLogWriter == nil &&
-			cfg.CurvePreferences == nil && cfg.Renegotiation == tls.RenegotiateNever
-		if c18WantHS(in) {
-			p, msg := recoverTo(func() {
-				for _, s := range m.servers {
-					obs.HS = append(obs.HS, m.handshake(cfg, s))
-				}
-			})
-			if p {
-				obs.Panicked, obs.Panic = true, msg
-			}
+		p, msg := recoverTo(func() { m.project(cfg, &obs) })
+		if p {
+			obs.Panicked, obs.Panic = true, msg
 		}
 	}
 	if obs.Err != "" {
@@ -858,7 +1199,7 @@ func (c18) Run(inAny any) any {
 	if obs.Panicked {
 		obs.RestZero = false
 	}
-	return obs
+	return obs, cfg
 }
 
 // c18Nat: unary numerals are expensive to type-check; anything but a small id goes through a primitive integer.
@@ -874,7 +1215,21 @@ func c18OptNat(present bool, v int) string {
 }
 
 func (c18) Coq(inAny any, obsAny any) string {
-	in, obs := inAny.(c18In), obsAny.(c18Obs)
+	if h, ok := inAny.(c18HistIn); ok {
+		ho := obsAny.(c18HistObs)
+		var terms []string
+		for i, st := range h.Hist {
+			terms = append(terms, c18CoqStep(st, ho.Steps[i]))
+		}
+		for _, l := range ho.Late {
+			terms = append(terms, c18CoqStep(h.Hist[l.Step], l.Obs))
+		}
+		return "Hist [" + strings.Join(terms, ";\n   ") + "]"
+	}
+	return "One (" + c18CoqStep(inAny.(c18In), obsAny.(c18Obs)) + ")"
+}
+
+func c18CoqStep(in c18In, obs c18Obs) string {
 	m := c18Material()
 	lk := "None"
 	if in.LoadedKey != 0 {
@@ -915,24 +1270,65 @@ func (c18) Coq(inAny any, obsAny any) string {
 		if !obs.RootsSystem {
 			roots = "(RPool " + c18Ints(obs.Roots) + ")"
 		}
-		certs := coqList(obs.Certs, func(c [2]int) string { return coqPair(c18Nat(c[0]), c18Nat(c[1])) })
+		certs := coqList(obs.Certs, func(c c18Cert) string { return coqPair(c18Ints(c.Chain), c18Nat(c.Key)) })
 		res = fmt.Sprintf("(Config (mkCfg %s %s %s %s %s %s %s %s))", c18Nat(obs.MinVersion), coqBool(obs.Insecure), coqBytes(string(obs.ServerName)),
 			roots, certs, c18OptNat(obs.Callback != 0, obs.Callback), coqBool(obs.Tickets), c18OptNat(obs.Cache != 0, obs.Cache))
 	}
 	hs := coqList(obs.HS, func(h c18HS) string {
 		s := m.servers[h.Server-1]
-		return fmt.Sprintf("(HS (mkSrv %d [%s] %s) %s %s)", s.ca, coqBytes(c18Dial), c18Nat(int(s.maxV)), coqBool(h.OK), c18Nat(h.Cert))
+		return fmt.Sprintf("(HS (mkSrv %d [%s] %s) %s %s)", s.ca, coqBytes(c18Dial), c18Nat(int(s.maxV)), coqBool(h.OK), c18Ints(h.Chain))
 	})
-	return fmt.Sprintf("CTLS %s %s %s %s %s %s %s [5] %s %s", o, coqBool(obs.LoadOK), coqBool(obs.MarshalOK), coqBool(obs.X509OK), caRead,
+	return fmt.Sprintf("CTLS %s %s %s %s %s %s %s %s [5] %s %s", o, coqBool(obs.LoadOK), c18Ints(obs.FileChain), coqBool(obs.MarshalOK), coqBool(obs.X509OK), caRead,
 		res, coqBool(obs.RestZero), coqBytes(c18Dial), hs)
 }
 
 func (c18) Classify(any, any) []string { return nil }
 
 func (c18) Category(inAny any, obsAny any) (string, bool) {
+	if h, ok := inAny.(c18HistIn); ok {
+		ho := obsAny.(c18HistObs)
+		ca, id, opt := false, false, false
+		for i := 1; i < len(h.Hist); i++ {
+			a, b := h.Hist[i-1], h.Hist[i]
+			ca = ca || a.CAFile != b.CAFile
+			id = id || a.CertFile != b.CertFile || a.KeyFile != b.KeyFile
+			a.CAFile, a.CertFile, a.KeyFile = b.CAFile, b.CertFile, b.KeyFile
+			opt = opt || a != b
+		}
+		what := ""
+		for _, x := range []struct {
+			on bool
+			s  string
+		}{{ca, "ca-file"}, {id, "cert-key-files"}, {opt, "options"}} {
+			if x.on {
+				what += "+" + x.s
+			}
+		}
+		if what == "" {
+			what = "+nothing"
+		}
+		outs := make([]string, 0, len(ho.Steps))
+		for _, o := range ho.Steps {
+			switch {
+			case o.Panicked:
+				outs = append(outs, "panic")
+			case o.Err != "":
+				outs = append(outs, "error")
+			default:
+				outs = append(outs, "config")
+			}
+		}
+		late := ""
+		if len(ho.Late) > 0 {
+			late = "/retained-config-changed"
+		}
+		return fmt.Sprintf("history-%d/changes%s/%s%s", len(h.Hist), what, strings.Join(outs, ","), late), true
+	}
 	in, obs := inAny.(c18In), obsAny.(c18Obs)
 	var id string
 	switch {
+	case in.CertFile >= 4 && in.CertFile <= 6:
+		id = "cert-chain-file"
 	case in.CertFile != 0:
 		id = "cert-file"
 	case in.LoadedCert != 0:
